@@ -121,19 +121,43 @@ TIME_PROGRAMS = [
 ]
 
 
-def time_cases():
-    res = []
+OTHER_LIMITS = [{}, {'calls': 10 ** 6}, {'depth': 50}, {'recursion': 50}, {'size': 10 ** 7}, {'search': 10 ** 4},
+                {'calls': 10 ** 6, 'depth': 50, 'recursion': 50, 'size': 10 ** 7, 'search': 10 ** 4}]
+AFTER_DEADLINE = [('named', 'shout(1)'), ('lambda', '((x: int)->{ display(x) })(5)'), ('callback', '[1, 2].map(shout).to_array().len()'),
+                  ('library', 'gcd(12, 18)')]
+
+
+def _time_job(args):
+    name, src, exp, limits = args
+    job = {'id': 0, 'limits': limits, 'perms': {'sleep': True}, 'steps': [{'feed': PRELUDE}, {'feed': src}, {'op': 'inst'}, {'op': 'get', 'name': 'r'}]}
+    rep = run_job(job, timeout=20.0)
+    if 'fatal' in rep:
+        return (name, src, exp, 'fatal:' + rep['fatal'], '', job)
+    rs = rep['replies']
+    inst = decode(rs[2]['v'])
+    out = rs[2]['c']['out'] + rs[3]['c']['out']
+    got = ('Timeout' if isinstance(inst, Viol) and inst.kind == 'Timeout' else ('value' if inst is True and not isinstance(decode(rs[3]['v']), (Viol, Panic, HostErr)) else repr(inst)))
+    return (name, src, exp, got, out, job)
+
+
+def time_cases(tier):
+    work = []
+    # deadline already passed when evaluation starts, alone and together with every other limit
     for name, src, exp in TIME_PROGRAMS:
-        job = {'id': 0, 'limits': {'time0': True}, 'steps': [{'feed': PRELUDE}, {'feed': src}, {'op': 'inst'}, {'op': 'get', 'name': 'r'}]}
-        rep = run_job(job, timeout=10.0)
-        if 'fatal' in rep:
-            res.append((name, src, exp, 'fatal:' + rep['fatal'], '', job)); continue
-        rs = rep['replies']
-        inst = decode(rs[2]['v'])
-        out = rs[2]['c']['out'] + rs[3]['c']['out']
-        got = ('Timeout' if isinstance(inst, Viol) and inst.kind == 'Timeout' else ('value' if inst is True and not isinstance(decode(rs[3]['v']), (Viol, Panic, HostErr)) else repr(inst)))
-        res.append((name, src, exp, got, out, job))
-    return res
+        for i, other in enumerate(OTHER_LIMITS):
+            work.append(('%s|with-limits-%d' % (name, i), src, exp, dict(other, time0=True)))
+    # deadline passes in the middle of the run (a sleep longer than the limit) after k user calls have been made: call k+1 never begins
+    ks = range(0, 18) if tier != 'quick' else (0, 1, 2, 15, 16, 17)
+    for k in ks:
+        for an, after in AFTER_DEADLINE:
+            for i, other in enumerate(OTHER_LIMITS if tier != 'quick' else OTHER_LIMITS[:2] + OTHER_LIMITS[-1:]):
+                src = ''.join('let a%d = inc(%d); ' % (j, j) for j in range(k)) + 'let s = sleep(seconds(0.6)); let r = %s;' % after
+                work.append(('after-%d-calls-then-%s|with-limits-%d' % (k, an, i), src, 'Timeout', dict(other, time_ms=300)))
+    # control: the same programs with a limit that does not elapse
+    for an, after in AFTER_DEADLINE:
+        src = 'let a0 = inc(0); let s = sleep(seconds(0.0)); let r = %s;' % after
+        work.append(('control-%s' % an, src, 'value', {'time_ms': 60000}))
+    return pmap(_time_job, work)
 
 
 def run(tier):
@@ -169,11 +193,11 @@ def run(tier):
                 if cls.startswith('fatal'):
                     rep.fail(Failure(PROP, '%s|%s|%s' % (c['sig'], variant, cls), {'src': c['src'], 'limits': limits}, 'returns within %.0f s with a value, error or violation' % STEP_TIMEOUT,
                                      actual, mk_unit_job([PRELUDE], [('c0', 'let c0 = ()->{ %s };' % c['src'])], limits, {'sleep': True}, {'max_items': 4})))
-    for name, src, exp, got, out, job in time_cases():
+    for name, src, exp, got, out, job in time_cases(tier):
         rep.evaluations += 1
         rep.nontrivial.add('time|' + name)
         if got != exp:
-            rep.fail(Failure(PROP, 'C10|time-limit|%s|%s' % (name, 'user-call-began' if exp == 'Timeout' else 'spurious-timeout'), {'src': src, 'limits': {'time_limit': 0}}, exp, got, job))
+            rep.fail(Failure(PROP, 'C10|time-limit|%s|%s' % (name, 'user-call-began' if exp == 'Timeout' else 'spurious-timeout'), {'src': src, 'limits': job['limits']}, exp, got, job))
         elif exp == 'Timeout' and out:
             rep.fail(Failure(PROP, 'C10|time-limit|%s|function-body-ran' % name, {'src': src}, 'no output from any function body', out, job))
     rep.sample(cs[0]['src'])
